@@ -11,8 +11,8 @@
    where read_genbas would hand an ECP block to the Turbomole potential parser (after the first statement of _parse_ecp_lines).
    Text is a string of bytes, white space is ASCII white space (\s, str.strip), letters / digits are ASCII ([a-zA-Z], \d), as
    everywhere in Model/.  int() of a run of digits is its value (Python's limit of 4300 digits is not modelled).
-   Pieces shared with the other models: span_alpha, function_type_from_am, append_shell, flush-free part_go conventions
-   (Model/Nwchem.v), span_digits, tm_create_electron_shells (Model/Turbomole.v), strip_prefix_ci (Model/NwchemEcp.v).
+   Pieces shared with the other models: span_alpha, function_type_from_am, append_shell (Model/Nwchem.v), span_digits,
+   tm_create_electron_shells (Model/Turbomole.v), strip_prefix_ci (Model/NwchemEcp.v).
    Definitions only; statements in Proofs/GenbasDefs.v, proofs in Proofs/GenbasSpec.v. *)
 From BSE Require Import Model.Val Model.Text Model.Basis Model.Manip Model.Matrix Model.Lut Model.Elements Model.Nwchem
                         Model.NwchemEcp Model.Turbomole.
